@@ -47,5 +47,7 @@ def main(tier, seed):
                             "rule": "every pool type x 33 generic inputs + wire forms of valid values with a field dropped/renamed/retyped, element removed/added, nesting changed"})
         for f in fails:
             chk.violation("bounded-cross-check :: " + f["type"], {"found": True, "kind": "c03-input", "case": f}, True)
+    chk.known_witness("C03-user-generic-type-argument", c03_concrete.user_generic_witness,
+                      "a parameterised user generic whose TypeVar field receives a value of another class")
     chk.resolve_failures(searcher)
     return chk.finish()
